@@ -137,6 +137,9 @@ func mapIdentity(v ssa.Value) string {
 	}
 	switch a := addr.(type) {
 	case *ssa.FieldAddr:
+		if _, local := a.X.(*ssa.Alloc); local {
+			return "" // field of a struct this function allocated itself: not yet shared
+		}
 		owner := deref(a.X.Type())
 		if n, ok := types.Unalias(owner).(*types.Named); ok && n.Obj().Pkg() != nil {
 			return n.Obj().Pkg().Path() + "." + n.Obj().Name() + "." + fieldName(a.X.Type(), a.Field)
@@ -163,12 +166,18 @@ func namedMapMethodEffect(f *ssa.Function) (isNamedMapMethod bool, writes bool) 
 		for _, in := range b.Instrs {
 			switch x := in.(type) {
 			case *ssa.MapUpdate:
-				if x.Map == recv {
+				if x.Map == recv || PointsInto(x.Map, recv) {
 					writes = true
 				}
 			case *ssa.Call:
-				if CallKey(x.Common()) == "builtin.delete" && x.Common().Args[0] == recv {
+				if CallKey(x.Common()) == "builtin.delete" && (x.Common().Args[0] == recv || PointsInto(x.Common().Args[0], recv)) {
 					writes = true
+				}
+				// delegation to another writing method of the same receiver
+				if g := StaticFn(x.Common()); g != nil && g != f && len(x.Common().Args) > 0 && x.Common().Args[0] == recv {
+					if isNM, w := namedMapMethodEffect(g); isNM && w {
+						writes = true
+					}
 				}
 			}
 		}
